@@ -131,7 +131,7 @@ def run(tier, seed, replay=None):
     build = lib.Build().run()
     rep.proof = lib.compile_props(PID)
     rng = lib.rng_for(seed, PID)
-    n = 48 if tier == 'quick' else 1500
+    n = 48 if tier == 'quick' else 12000
     cases = [gen_case(rng, c) for c in range(n)]
     results = lib.run_sessions(cases)
     lib.std_checks(rep, results, oracle)
